@@ -1,9 +1,10 @@
 package props
 
 import (
-	"os"
 	"fmt"
 	"go/token"
+	"go/types"
+	"os"
 	"strings"
 
 	"gmslverif/fw"
@@ -218,7 +219,9 @@ func checkStateResponse(c *fw.Ctx) {
 	switch {
 	case applications == 2:
 		c.Ok(rule, "both the auth-event list and the state-event list are filtered", c.P.Pos(fn.Pos()), "")
-	case applications == 0 && len(deepCallsTo(fn, func(n string) bool { return strings.Contains(n, "Delete") || strings.Contains(n, "Filter") || strings.Contains(n, "filter") })) > 0:
+	case applications == 0 && len(deepCallsTo(fn, func(n string) bool {
+		return strings.Contains(n, "Delete") || strings.Contains(n, "Filter") || strings.Contains(n, "filter")
+	})) > 0:
 		c.Undecided(rule, "both the auth-event list and the state-event list are filtered", "no filter application in a form the rule recognises, but the function calls a deleting / filtering routine")
 	default:
 		c.Fail(rule, "both the auth-event list and the state-event list are filtered", c.P.Pos(fn.Pos()), fmt.Sprintf("%d filter applications found (in place or through a helper taking the failure set)", applications))
@@ -545,7 +548,8 @@ func checkLoadAndVerify(c *fw.Ctx) {
 			}
 		}
 	}
-	c.Check(okLen, rule, "one result per input", c.P.Pos(fn.Pos()), "", "results is not make([]EventLoadResult, len(rawEvents))")
+	c.Expect(okLen, rule, "one result per input", c.P.Pos(fn.Pos()), "", "results is not recognised as make([]EventLoadResult, len(rawEvents))")
+	checkResultSlotsFilled(c, rule, fn)
 }
 
 func checkUntrusted(c *fw.Ctx) {
@@ -613,4 +617,62 @@ func keepFilter(f *ssa.Function) bool {
 		}
 	}
 	return false
+}
+
+// checkResultSlotsFilled: results has one slot per input; the events fill the front, the
+// parse errors the back. The events have been through ReverseTopologicalOrdering, which
+// returns each event once: when the input names an event twice, slots remain between the two
+// ranges. A slot left untouched is a zero EventLoadResult - no event, no error - and reads as
+// a verified event (RequestBackfill calls res.Event.EventID() on it). So some store must
+// cover the range that starts at len(events).
+func checkResultSlotsFilled(c *fw.Ctx, rule string, fn *ssa.Function) {
+	construct := "every result slot carries an event or an error"
+	var ordered ssa.Value
+	for _, dc := range fw.AllDeepCalls(fn, stopExported) {
+		if fw.CalleeName(dc.Call) == "gmsl.ReverseTopologicalOrdering" && dc.Fr == nil {
+			ordered, _ = dc.Call.(ssa.Value)
+		}
+	}
+	if ordered == nil {
+		c.Undecided(rule, construct, "no call of ReverseTopologicalOrdering in LoadAndVerify itself")
+		return
+	}
+	lenOrdered := "builtin.len(" + fw.Sig(ordered) + ")"
+	nStores, gap := 0, false
+	for _, di := range fw.DeepInstrs(fn, nil) {
+		st, ok := di.Instr.(*ssa.Store)
+		if !ok {
+			continue
+		}
+		ia, ok := st.Addr.(*ssa.IndexAddr)
+		if !ok || !strings.Contains(ia.X.Type().String(), "EventLoadResult") {
+			continue
+		}
+		nStores++
+		// an index that starts at len(the ordered events): `for i := len(events); ...`
+		if phi, isPhi := ia.Index.(*ssa.Phi); isPhi {
+			for _, e := range phi.Edges {
+				if strings.TrimPrefix(fw.SigIn(di.Fr, e), "*&") == lenOrdered || strings.Contains(fw.SigIn(di.Fr, e), lenOrdered) {
+					gap = true
+				}
+				// len of a list of events held in a variable or field (the ordered list stored back)
+				if lc, isCall := e.(*ssa.Call); isCall && fw.CalleeName(lc) == "builtin.len" && len(lc.Call.Args) == 1 {
+					if sl, isSl := lc.Call.Args[0].Type().Underlying().(*types.Slice); isSl && strings.HasSuffix(fw.Short(sl.Elem().String()), "gmsl.PDU") {
+						gap = true
+					}
+				}
+			}
+		}
+		if strings.Contains(fw.SigIn(di.Fr, ia.Index), lenOrdered+" + ") {
+			gap = true
+		}
+	}
+	switch {
+	case nStores == 0:
+		c.Undecided(rule, construct, "no store into the result slice was recognised")
+	case gap:
+		c.Ok(rule, construct, c.P.Pos(fn.Pos()), "a store loop starts at len(ordered events)")
+	default:
+		c.Fail(rule, construct, c.P.Pos(fn.Pos()), "the ordered list (which names each event once) fills the front of the results and the parse errors the back, and nothing writes the slots in between: an input that names an event twice yields a result with neither event nor error, which callers take for a verified event (RequestBackfill dereferences its nil Event)")
+	}
 }
